@@ -30,6 +30,7 @@ type Engine struct {
 	srcLines map[string][]string
 	warnings map[string]bool
 	assumptions map[string]bool
+	readsets map[*ssa.Function]map[string]string
 	timeout int // seconds per query
 	jobs    int
 	workdir string
@@ -734,7 +735,7 @@ func (e *Engine) confinedMods(con *Contract, params []*ssa.Parameter, args []ssa
 		return nil
 	}
 	for _, w := range con.Writes {
-		if a := argOf(w); a != nil && !rootIsLocalAlloc(a, 0) {
+		if a := argOf(w); a != nil && !rootIsLocalAlloc(a, 0) && !isNilRefConst(a) {
 			if sl, ok := a.Type().Underlying().(*types.Slice); ok {
 				addTypeHeaps("A."+typeName(sl.Elem()), sl.Elem(), mods)
 			}
@@ -746,7 +747,7 @@ func (e *Engine) confinedMods(con *Contract, params []*ssa.Parameter, args []ssa
 			mods[m] = true
 			continue
 		}
-		if a := argOf(m[i+1:]); a == nil || !rootIsLocalAlloc(a, 0) {
+		if a := argOf(m[i+1:]); a == nil || (!rootIsLocalAlloc(a, 0) && !isNilRefConst(a)) {
 			mods[m[:i]] = true
 		}
 	}
@@ -766,7 +767,7 @@ func (e *Engine) confinedIface(con *Contract, c *ssa.CallCommon, args []ssa.Valu
 		return nil
 	}
 	for _, w := range con.Writes {
-		if a := argOf(w); a != nil && !rootIsLocalAlloc(a, 0) {
+		if a := argOf(w); a != nil && !rootIsLocalAlloc(a, 0) && !isNilRefConst(a) {
 			if sl, ok := a.Type().Underlying().(*types.Slice); ok {
 				addTypeHeaps("A."+typeName(sl.Elem()), sl.Elem(), mods)
 			}
@@ -778,8 +779,14 @@ func (e *Engine) confinedIface(con *Contract, c *ssa.CallCommon, args []ssa.Valu
 			mods[m] = true
 			continue
 		}
-		if a := argOf(m[i+1:]); a == nil || !rootIsLocalAlloc(a, 0) {
+		if a := argOf(m[i+1:]); a == nil || (!rootIsLocalAlloc(a, 0) && !isNilRefConst(a)) {
 			mods[m[:i]] = true
 		}
 	}
+}
+
+// isNilConst: the nil literal designates no object, so effects confined to it are no effects.
+func isNilRefConst(v ssa.Value) bool {
+	c, ok := v.(*ssa.Const)
+	return ok && c.IsNil()
 }
